@@ -43,12 +43,24 @@ class A(ConvergenceController):
         controller.add_convergence_controller(D, description=description, params={'bar': 1})
 
 
+class E(ConvergenceController):
+    def setup(self, controller, params, description, **kwargs):
+        return {'control_order': 70, 'foo': 0, **super().setup(controller, params, description, **kwargs)}
+
+
+class E2(E):
+    """a sub-class of another requested controller"""
+
+    def setup(self, controller, params, description, **kwargs):
+        return {**super().setup(controller, params, description, **kwargs), 'control_order': params.get('control_order', 75)}
+
+
 class B(ConvergenceController):
     def setup(self, controller, params, description, **kwargs):
         return {'control_order': -5, 'foo': 0, **super().setup(controller, params, description, **kwargs)}
 
 
-CC = {'A': (A, 'foo'), 'B': (B, 'foo'), 'D': (D, 'bar')}
+CC = {'A': (A, 'foo'), 'B': (B, 'foo'), 'D': (D, 'bar'), 'E': (E, 'foo'), 'E2': (E2, 'foo')}
 
 
 def shaped(sh, values, scalar):
@@ -80,7 +92,8 @@ def build(d):
     if d['pred'] != 'none':
         cp['predict_type'] = d['pred']
     ccs = {}
-    for name in ('A', 'B', 'D'):  # A before D (see DESIGN: the outcome of a dependency depends on the dict order)
+    for name in ('A', 'B', 'D', 'E2', 'E'):  # A before D (see DESIGN: the outcome of a dependency depends on the dict order);
+        # the sub-class E2 before its base class E
         for (n, order, par) in d['ccs']:
             if n == name:
                 p = {}
